@@ -193,6 +193,10 @@ def obligations(tier):
         obs.append(Ob('reconfigured/%s' % enc, reconfigured(enc, hexbm), 600,
                       'one caller-supplied configuration object used for a round trip, edited in place (PDS carrier moved, widths changed) and used again: '
                       'nothing may be remembered from the first use', _funcs))
+    TWO_DATES = {'13': {'field_type': 'FIXED', 'field_length': 6, 'field_python_type': 'datetime', 'field_date_format': '%y%m%d'},
+                 '15': {'field_type': 'FIXED', 'field_length': 6, 'field_python_type': 'datetime', 'field_date_format': '%d%m%y'}}
+    obs.append(Ob('generic/g-two-date-formats/latin_1', roundtrip(lambda: [13, 15], 'latin_1', False, cfgs=TWO_DATES), 300,
+                  'two date elements of the same width and different formats (%y%m%d, %d%m%y), symbolic dates: equal digit strings stand for different dates', _funcs))
     import itertools as _it
     subsets = [[8], [28], [8, 28], [3, 8, 28]]
     obs.append(Ob('generic/g-decimal/latin_1', roundtrip(lambda: list(choose('subset', subsets)), 'latin_1', False, cfgs=GENERIC_DEC), 300,
